@@ -42,6 +42,7 @@ def run(run, args):
     n, maxl, maxarr = (150, 200, 2500) if run.tier == "quick" else (700, 600, 30000)
     n *= run.scale
     prepare(run)
+    source_tie(run, ("mz", "convolution"))
     rc, out, err, dt = run_harness(["conv", run.seed, n, maxl, maxarr], timeout=1200)
     if rc != 0:
         violation(run, {"broken": "harness `conv` failed", "detail": err[-2000:]}, nofail=True)
